@@ -35,11 +35,10 @@ typedef union {
 
 typedef enum { U8, U16, U32, U64, I8, I16, I32, I64 } IntType;
 
-u_f32 set_bitfield_float(float data, uint8_t start, uint8_t length) {
+uint64_t set_bitfield_float(float data, uint8_t start, uint8_t length) {
     u_f32 d = {.f = (data)};
-    d.i = ((d.i & bitmask(length)) << (start));
 
-    return d;
+    return ((uint64_t)d.i & bitmask(length)) << (start);
 }
 
 u_f64 set_bitfield_double(double data, uint8_t start, uint8_t length) {
@@ -300,10 +299,10 @@ float can_decode_signal_as_float(const CanFrame *msg, uint32_t start, uint32_t l
 
 uint64_t can_encode_signal_from_float(float signal, uint32_t start, uint32_t length, float scale,
                                       float offset, bool is_big_endian) {
-    u_f32 bitfield =
+    uint64_t bitfield =
         set_bitfield_float(apply_linear_float(signal, 1 / scale, -offset), start, length);
 
-    return is_big_endian ? swap_bytes_int(bitfield.i, U32) : bitfield.i;
+    return is_big_endian ? swap_bytes_int(bitfield, U32) : bitfield;
 }
 
 int64_t can_decode_signal_as_int64_t(const CanFrame *msg, uint32_t start, uint32_t length,
